@@ -31,8 +31,35 @@ def solve_qp(P, q, G=None, h=None, A=None, b=None, lb=None, ub=None, solver=None
         log("kernel", "solve_qp", (P, q, G, h, solver), r)
         return r
     n = P.shape[0]
+    # the kernel is a deterministic function: syntactically equal arguments get the same answer
+    mk = ("solve_qp", tuple(symx._key(x.n) + "/" + symx._key(x.d) for a in (P, q, G, h) if a is not None for x in a._flat()), str(solver))
+    cached = symx.space().memo.get(mk)
+    if cached is not None:
+        r = np.ndarray._make(list(cached), (n,), np.float64)
+        log("kernel", "solve_qp", (P, q, G, h, solver), r)
+        return r
     Pm = _rows(P)
     qv = q._flat()
+    cand_fn = torch.KERNELS.get("qp_candidates")
+    if cand_fn is not None and G is not None:
+        # candidate formulation: a vector proposed by the harness is returned iff the solver PROVES that it satisfies
+        # the KKT conditions for the arguments actually passed (multipliers are determined when G = -I).
+        Gm0, hv0 = _rows(G), h._flat()
+        isnegI = all(x.conc and x.frac() == (-1 if i == j else 0) for i, r in enumerate(Gm0) for j, x in enumerate(r)) and len(Gm0) == n
+        if isnegI:
+            import z3
+            for cand in cand_fn():
+                if len(cand) != n:
+                    continue
+                mu_c = [_sum([Pm[i][j] * cand[j] for j in range(n)]) + qv[i] for i in range(n)]
+                slack = [-cand[i] - hv0[i] for i in range(n)]  # (G v - h)_i <= 0
+                f = z3.And(*[(mu_c[i] >= 0).z() for i in range(n)], *[(slack[i] <= 0).z() for i in range(n)],
+                           *[(mu_c[i] * slack[i]).eqz(0) for i in range(n)])
+                if symx.space().check(z3.Not(f), timeout_ms=5000) == "unsat":
+                    symx.space().memo[mk] = list(cand)
+                    r = np.ndarray._make(list(cand), (n,), np.float64)
+                    log("kernel", "solve_qp", (P, q, G, h, solver), r, "candidate")
+                    return r
     Gm = _rows(G) if G is not None else []
     hv = h._flat() if h is not None else []
     v = [symx.fresh(f"qp_v{i}") for i in range(n)]
@@ -45,6 +72,7 @@ def solve_qp(P, q, G=None, h=None, A=None, b=None, lb=None, ub=None, solver=None
         symx.assume((mu[k] >= 0).z())
         symx.assume((slack <= 0).z())
         symx.assume((mu[k] * slack).eqz(0))
+    symx.space().memo[mk] = list(v)
     r = np.ndarray._make(v, (n,), np.float64)
     log("kernel", "solve_qp", (P, q, G, h, solver), r)
     return r
